@@ -17,3 +17,53 @@ BASE_EDGES = {'A': {'N1': 'W', 'C2': 'WS', 'N3': 'S', 'N6': 'WH', 'N7': 'H', 'C8
               'C': {'O2': 'WS', 'N3': 'W', 'N4': 'WH', 'C5': 'H', 'C6': 'H', "O2'": 'S'},
               'U': {'O2': 'WS', 'N3': 'W', 'O4': 'WH', 'C5': 'H', 'C6': 'H', "O2'": 'S'},
               'T': {'O2': 'WS', 'N3': 'W', 'O4': 'WH', 'C6': 'H', 'C7': 'H'}}
+
+# base-phosphate / base-ribose classes (Zirbel et al. 2009): per (base, donor atom) either a class, or two ring atoms and the
+# classes for a cis / trans placement of the acceptor about the ring bond (|torsion a-b-donor-acceptor| below / above 90 degrees)
+BPH_LADDER = {("A", "C2"): 2, ("A", "N6"): ("N1", "C6", 6, 7), ("A", "C8"): 0,
+              ("G", "N1"): 5, ("G", "N2"): ("N3", "C2", 1, 3), ("G", "C8"): 0,
+              ("C", "N4"): ("N3", "C4", 6, 7), ("C", "C5"): 9, ("C", "C6"): 0,
+              ("U", "N3"): 5, ("U", "C5"): 9, ("U", "C6"): 0,
+              ("T", "N3"): 5, ("T", "C6"): 0, ("T", "C7"): 9}
+
+
+def _dihedral_deg(p1, p2, p3, p4):
+    import math
+    import numpy as np
+    b1, b2, b3 = p2 - p1, p3 - p2, p4 - p3
+    n1, n2 = np.cross(b1, b2), np.cross(b2, b3)
+    if not np.linalg.norm(n1) or not np.linalg.norm(n2):
+        return 0.0
+    m1 = np.cross(n1, b2 / np.linalg.norm(b2))
+    return math.degrees(math.atan2(float(np.dot(m1, n2)), float(np.dot(n1, n2))))
+
+
+def bph_class(donor_residue, donor_atom, acceptor_atom):
+    """class implied by one donor atom in contact with a phosphate/ribose oxygen; None when the table has no entry.
+    Returns (class, undecided) - undecided when the torsion is within 1e-6 degree of +-90."""
+    import numpy as np
+    e = BPH_LADDER.get((donor_residue.one_letter_name, donor_atom.name))
+    if e is None:
+        return None, False
+    if isinstance(e, int):
+        return e, False
+    a, b, cis, trans = e
+    pa, pb = donor_residue.find_atom(a), donor_residue.find_atom(b)
+    if pa is None or pb is None:
+        return None, False
+    t = _dihedral_deg(np.array(pa.coordinates), np.array(pb.coordinates), np.array(donor_atom.coordinates), np.array(acceptor_atom.coordinates))
+    return (cis if -90.0 < t < 90.0 else trans), abs(abs(t) - 90.0) < 1e-6
+
+
+def cis_trans(ri, rj):
+    """'c' / 't' from the C1'-N1/N9 ... N1/N9-C1' torsion (|torsion| below / above 90 degrees); None when an atom is missing.
+    Returns (letter, undecided)."""
+    import numpy as np
+
+    def glyco_n(r):
+        return r.find_atom("N9" if r.one_letter_name in "AG" else "N1")
+    c1i, c1j, ni, nj = ri.find_atom("C1'"), rj.find_atom("C1'"), glyco_n(ri), glyco_n(rj)
+    if None in (c1i, c1j, ni, nj):
+        return None, False
+    t = _dihedral_deg(np.array(c1i.coordinates), np.array(ni.coordinates), np.array(nj.coordinates), np.array(c1j.coordinates))
+    return ("c" if -90.0 < t < 90.0 else "t"), abs(abs(t) - 90.0) < 1e-6
